@@ -461,6 +461,20 @@ func RaceLibFrames(r RaceReport) (a, b string) {
 	return
 }
 
+// ruleNotes returns the later additions to a property's workload description (ref/rule_notes.json, written by
+// tools/mkmanifest.py from the same table as the manifest's level notes).
+func ruleNotes(id string) string {
+	b, err := os.ReadFile(filepath.Join(VerifDir, "ref", "rule_notes.json"))
+	if err != nil {
+		return ""
+	}
+	var notes map[string]string
+	if json.Unmarshal(b, &notes) != nil || notes[id] == "" {
+		return ""
+	}
+	return " LATER ADDITIONS: " + notes[id]
+}
+
 func classifyRaces(spec *Spec, m *Merged) {
 	classes := map[string]int{}
 	seen := map[string]bool{}
@@ -557,7 +571,7 @@ func conclude(spec *Spec, m *Merged, tier string, seed uint64, wall time.Duratio
 	cov := map[string]any{
 		"evaluations":         evals,
 		"distinct_nontrivial": len(m.Distinct),
-		"rule":                spec.Rule,
+		"rule":                spec.Rule + ruleNotes(spec.ID),
 		"samples":             m.Samples,
 		"counters":            m.Counters,
 		"exhaustive":          exhaustive,
